@@ -12,3 +12,5 @@ import X86Model.Model.Tss
 import X86Model.Model.Gdt
 import X86Model.Spec.Descriptor
 import X86Model.Properties.C15
+import X86Model.Spec.GdtTable
+import X86Model.Properties.C14
